@@ -4,6 +4,7 @@ import (
 	"encoding/json"
 	"fmt"
 	"io"
+	"net/http"
 	"strings"
 	"time"
 
@@ -312,6 +313,61 @@ func c08Siblings(r *core.Run, p *route.Parser) {
 	})
 }
 
+// c08RoutesLists: method lists given to Routes in one string. An item that is no HTTP method (an empty item, two
+// names run together by white space, a misspelling) makes the registration fail loudly; the others register
+// every method they name.
+func c08RoutesLists(r *core.Run) {
+	valid := map[string][]string{"GET": {"GET"}, "GET,POST": {"GET", "POST"}, "GET, POST": {"GET", "POST"}, " get ,post ": {"GET", "POST"}, "put,PATCH,delete": {"PUT", "PATCH", "DELETE"}}
+	invalid := []string{"GET POST", "GET\tPOST", "GET,", ",GET", "GET,,POST", "GET, ,POST", ",", " ", "", "GETT", "GET,BREW", "GET;POST", "GET\nPOST"}
+	l := core.NewLocal()
+	try := func(list string) (f *flamego.Flame, pv interface{}) {
+		f = flamego.NewWithLogger(io.Discard)
+		defer func() { pv = recover() }()
+		f.Routes("/x", list, func(c flamego.Context) { c.ResponseWriter().WriteHeader(204) })
+		return f, nil
+	}
+	for list, methods := range valid {
+		l.Evals++
+		l.Transitions++
+		l.Traces++
+		f, pv := try(list)
+		if pv != nil {
+			l.Violate("flame/rejected-but-wellformed/routes-method-list", fmt.Sprintf("Routes(\"/x\", %q) refused: %v", list, pv), c08Case{Candidate: "/x", Method: list, Flame: true, RegMethods: []string{"routes-list"}})
+			continue
+		}
+		for _, m := range c08KnownMethods {
+			spy := &c01Spy{hdr: http.Header{}}
+			f.ServeHTTP(spy, newReq(m, "/x"))
+			named := false
+			for _, x := range methods {
+				named = named || x == m
+			}
+			if named != (spy.code == 204) {
+				l.Violate("flame/routes-method-list-registers-other-methods", fmt.Sprintf("Routes(\"/x\", %q): %s /x answers %d", list, m, spy.code), c08Case{Candidate: "/x", Method: list, Flame: true, RegMethods: []string{"routes-list"}})
+			}
+		}
+		l.Class("candidate:accept")
+	}
+	for _, list := range invalid {
+		l.Evals++
+		l.Transitions++
+		l.Traces++
+		l.NonTrivial++
+		_, pv := try(list)
+		if pv == nil {
+			l.Class("mismatch")
+			l.Violate("flame/accepted-but-must-reject/unknown HTTP method/routes-method-list", fmt.Sprintf("Routes(\"/x\", %q) is accepted although the list holds an item that is no HTTP method", list), c08Case{Candidate: "/x", Method: list, Flame: true, RegMethods: []string{"routes-list"}})
+			continue
+		}
+		if msg := fmt.Sprint(pv); !strings.HasPrefix(msg, "unknown HTTP method") && !strings.HasPrefix(msg, "empty methods") {
+			l.Violate("flame/runtime-panic-at-registration/routes-method-list", fmt.Sprintf("Routes(\"/x\", %q) died with %v instead of the documented registration panic", list, pv), c08Case{Candidate: "/x", Method: list, Flame: true, RegMethods: []string{"routes-list"}})
+			continue
+		}
+		l.Class("candidate:reject")
+	}
+	r.Merge(l)
+}
+
 func c08Shape(r ref.Route) string {
 	var parts []string
 	for _, s := range r.Segs {
@@ -457,6 +513,7 @@ func c08Run(r *core.Run) {
 
 	c08Deep(r, p)
 	c08Siblings(r, p)
+	c08RoutesLists(r)
 
 	// flame level: methods, panics
 	methods := []string{"GET", "POST", "PUT", "DELETE", "PATCH", "OPTIONS", "HEAD", "CONNECT", "TRACE", "*", "get", "BREW", "", "GET,POST", " GET"}
@@ -627,6 +684,14 @@ func c08Replay(raw json.RawMessage) (bool, string) {
 			e.AST = ast
 		}
 		return e
+	}
+	if c.Flame && len(c.RegMethods) == 1 && c.RegMethods[0] == "routes-list" {
+		sub := core.NewRun("C08", "quick")
+		c08RoutesLists(sub)
+		if sub.HasViolations() {
+			return true, "a method list given to Routes is not handled as the statement says (the whole list phase was re-run)"
+		}
+		return false, ""
 	}
 	if c.Flame {
 		bad, _, _ := c08FlameEval(nil, c.Registered, c.RegMethods, c.Candidate, c.Method)
